@@ -237,7 +237,7 @@ def all_obligations():
 
     # ---------------- decode.c
     for j, as_, t in [(0, 3, 0), (2, 258, 5)]:
-        A(Ob(name=f'decode.delta_step.j{j}', props=['C05', 'C06'], kind='lemma', harness='h_decode.c', entry='h_delta_step',
+        A(Ob(name=f'decode.delta_step.j{j}', props=['C05', 'C06', 'C01'], kind='lemma', harness='h_decode.c', entry='h_delta_step',
              what='every 6-bit delta window of the real retrieve() (L[]/R[] tables + range test), from every length value 0..31 the code can hold, '
                   'is accepted iff strict step-by-step bzip2 1.0.x decoding accepts it, with the same resulting length/consumed bits',
              functions=['retrieve (code-length delta section)', 'L[] R[] (tables)'], flags=['--unwind', '8', '--unwinding-assertions'],
@@ -339,7 +339,7 @@ def all_obligations():
          functions=['encoder_init'], flags=['--unwind', '258', '--unwinding-assertions'], expect=['encoder_init: empty block'], replayable=True))
     A(Ob(name='encode.make_map_e', props=['C01', 'C02', 'C08'], kind='proof', harness='h_collect.c', entry='h_make_map_e', extra_srcs=['src/crctab.c'], defines={'CAP': '3', 'FILL': '0', 'RUNK': '0', 'NIN': '1'},
          what='make_map_e(): for every in-use map the used byte values are numbered 0,1,2.. in ascending order and their count is returned (ghost index over all 256 values)',
-         functions=['make_map_e'], flags=['--unwind', '258', '--unwinding-assertions'], expect=['make_map_e: every byte value is mapped'], replayable=True))
+         functions=['make_map_e'], flags=['--unwind', '258', '--unwinding-assertions'], expect=['make_map_e: the number advances by one'], replayable=True))
     # ---------------- encode.c do_mtf(): MTF + zero-run coder against the inverse of the format (C01 O1.3)
     for n, a, tier in ((5, 3, 'quick'), (6, 4, 'thorough'), (7, 3, 'thorough')):
         A(Ob(name=f'encode.do_mtf.n{n}a{a}', props=['C01', 'C02', 'C08'], kind='bounded', tier=tier, harness='h_do_mtf.c', entry='h_do_mtf', extra_srcs=['src/crctab.c'], solver='cadical',
